@@ -145,7 +145,7 @@ CHECKS["C11"] = {
             "hadMember, re-binding bundles) and the shipped XML files are loaded, re-written in XML (force_types off/on) and in "
             "JSON and re-loaded (strict content equal), and compared with the independent reader XmlSpec.read (partial: "
             "stability of documents with bundles and of PROV-XML documents is decided per run; boundness of names and "
-            "one member per membership record of a loaded document are premises of the stability theorem).",
+            "a plain manager of a loaded document are the premises of the stability theorem).",
     "design_ref": "DESIGN.md §5 C11, §10",
     "technique": "Coq well-formedness proof of the decoder + differential correspondence on foreign trees + spec-reader oracle",
 }
@@ -361,7 +361,9 @@ CHECKS["C11"]["text"] = CHECKS["C11"]["text"].replace(
     "the prefix block gives (what findings C01-F1..F3 are about), valid times, floats in the float table; non-vacuity "
     "C11_json_stable_applies; since the repair of C05-F1, one value per formal attribute is itself a theorem about every loaded "
     "document for all formal attributes but the members of a collection (C11_json_decoded_single_valued), and "
-    "C11_json_stable_members needs only 'no membership record lists two members' in its place; the PROV-XML reader is "
+    "C11_json_stable_members needs only 'no membership record lists two members' in its place; that, too, is proved for "
+    "every loaded document (C11_json_decoded_normal: the reader never hands new_record two arguments that can denote "
+    "prov:entity), so C11_json_stable_loaded has no premise about the values of d left; the PROV-XML reader is "
     "modelled above record level too (XmlReadDoc.xml_read_document: fresh document, prov:other skipped, bundleContent -> "
     "document.bundle(identifier read in the element's scope) and its children, record elements) and tied per run to "
     "ProvDocument.deserialize on whole foreign and library-written texts (document built with every manager table, or error "
